@@ -67,6 +67,10 @@ EXPLANATION = (
     "default, followed into the helpers it is handed to) — the tests that decide to leave a weight factor out of the emitted "
     "term — is an absolute comparison |x - c| < tol; np.allclose / np.isclose / math.isclose are accepted only with an "
     "explicit zero relative tolerance and the declared tolerance as absolute one.  "
+    "R14 every test in pyrates/ir/circuit.py that is equivalent to X[-1] - X[0] == len(X) - 1 (an index list judged by its end "
+    "points and length; matched symbolically, through int() wrappers and aliases) is combined with an element-wise test or "
+    "applied only to lists that are sorted and duplicate-free by construction at every origin (np.unique / range, followed "
+    "through parameters to the call sites); synthetic positive / negative controls run on every check.  "
     "R4, R7, R3 and R10 look at functions with their private helpers spliced in (engine.inline) whenever the construct and its "
     "guard may have been put into different functions; a construct is then judged at every call site.  "
     "R5 (state layout loops) is implemented as C12-R2 in rules/c12.py and registered here when that module provides it.  "
@@ -3043,3 +3047,184 @@ def r13_weight_factor_dropped_only_within_absolute_tolerance(ctx, rid):
 
 
 RULES.append(("C01-R13", r13_weight_factor_dropped_only_within_absolute_tolerance, 2))
+
+
+# ================================================================================================
+# R14 an index list is recognised as a run of consecutive positions element by element, not by its end points
+# ================================================================================================
+
+ORDERED_UNIQUE_CALLS = {"unique", "arange", "range"}
+_R14_CONTROL_BAD = '''
+def control(idx):
+    first = int(idx[0])
+    return int(idx[-1]) - first == len(idx) - 1
+'''
+_R14_CONTROL_GOOD = '''
+def control(idx):
+    return all(int(b) - int(a) == 1 for a, b in zip(idx[:-1], idx[1:]))
+'''
+
+
+def _span_test(rd, cmp: ast.AST) -> Optional[str]:
+    """X when `cmp` is an (in)equality that is equivalent to X[-1] - X[0] == len(X) - 1 (any arrangement of the terms, int()
+    wrappers, single-definition aliases of the end points): the list is judged by its end points and its length only."""
+    import sympy as sp
+    if not (isinstance(cmp, ast.Compare) and len(cmp.ops) == 1 and isinstance(cmp.ops[0], (ast.Eq, ast.NotEq))):
+        return None
+    F, L, N = sp.Symbol("F"), sp.Symbol("L"), sp.Symbol("N")
+    lists: Set[str] = set()
+
+    def conv(e, depth=0):
+        while isinstance(e, ast.Call) and isinstance(e.func, ast.Name) and e.func.id in ("int", "float") and len(e.args) == 1:
+            e = e.args[0]
+        if isinstance(e, ast.Constant) and isinstance(e.value, int) and not isinstance(e.value, bool):
+            return sp.Integer(e.value)
+        if isinstance(e, ast.Subscript) and isinstance(e.value, ast.Name):
+            sl = e.slice
+            if isinstance(sl, ast.Constant) and sl.value == 0:
+                lists.add(e.value.id)
+                return F
+            if isinstance(sl, ast.UnaryOp) and isinstance(sl.op, ast.USub) and isinstance(sl.operand, ast.Constant) and sl.operand.value == 1:
+                lists.add(e.value.id)
+                return L
+            return None
+        if isinstance(e, ast.Call) and call_name(e) == "len" and len(e.args) == 1 and isinstance(e.args[0], ast.Name):
+            lists.add(e.args[0].id)
+            return N
+        if isinstance(e, ast.Attribute) and e.attr == "size" and isinstance(e.value, ast.Name):
+            lists.add(e.value.id)
+            return N
+        if isinstance(e, ast.Name) and depth < 3 and rd is not None:
+            defs = rd.defs_reaching(e)
+            v = assigned_value(defs[0], e.id) if len(defs) == 1 and not isinstance(defs[0], ast.arguments) else None
+            return conv(v, depth + 1) if v is not None else None
+        if isinstance(e, ast.BinOp) and isinstance(e.op, (ast.Add, ast.Sub)):
+            a, b = conv(e.left, depth), conv(e.right, depth)
+            if a is None or b is None:
+                return None
+            return a + b if isinstance(e.op, ast.Add) else a - b
+        if isinstance(e, ast.UnaryOp) and isinstance(e.op, ast.USub):
+            a = conv(e.operand, depth)
+            return -a if a is not None else None
+        return None
+    l, r = conv(cmp.left), conv(cmp.comparators[0])
+    if l is None or r is None or len(lists) != 1:
+        return None
+    d = sp.expand(l - r)
+    span = L - F - N + 1
+    if sp.expand(d - span) == 0 or sp.expand(d + span) == 0:
+        return next(iter(lists))
+    return None
+
+
+def _elementwise_run_test(e: ast.AST, X: str) -> bool:
+    """Does the boolean expression contain a test of list X that looks at every element (adjacent differences, comparison with a
+    range, sortedness + distinctness)?"""
+    for n in ast.walk(e):
+        if isinstance(n, ast.Call):
+            nm = call_name(n)
+            if nm in ("diff", "array_equal", "ediff1d") and X in load_ids(n):
+                return True
+            if nm in ("all", "any") and n.args and isinstance(n.args[0], (ast.GeneratorExp, ast.ListComp)) \
+                    and any(X in load_ids(g.iter) for g in n.args[0].generators):
+                return True
+        if isinstance(n, ast.Compare) and len(n.ops) == 1 and isinstance(n.ops[0], (ast.Eq, ast.NotEq)):
+            sides = [n.left, n.comparators[0]]
+            if any(X in load_ids(s) and not isinstance(s, ast.Subscript) and not (isinstance(s, ast.Call) and call_name(s) == "len")
+                   for s in sides) and any(isinstance(c, ast.Call) and call_name(c) in ("range", "arange") for s in sides for c in ast.walk(s)):
+                return True
+    return False
+
+
+def r14_index_run_is_decided_element_by_element(ctx, rid):
+    """When the positions an edge reads or writes form a run a, a+1, …, b the generator may address them as a slice / the whole
+    variable.  The position lists come in edge order: they can be permuted and can contain a position twice.  Necessary: a list
+    is taken for a run only under a test that looks at every element (all adjacent differences 1, equality with range(a, b)).  A
+    test of the form X[-1] - X[0] == len(X) - 1 (end points and length) is sufficient only for lists that are sorted and
+    duplicate-free by construction (np.unique / range); applied to any other list it lets `weight * r[source_idx]` become a
+    slice of the wrong elements."""
+    # controls: the matcher sees the end-point test and does not see the element-wise one
+    def control(src):
+        tree = ast.parse(src)
+        set_parents(tree)
+        fn = tree.body[0]
+        rd = ReachingDefs(CFG(fn))
+        return [_span_test(rd, c) for c in ast.walk(fn) if isinstance(c, ast.Compare)]
+    if control(_R14_CONTROL_BAD) != ["idx"] or any(control(_R14_CONTROL_GOOD)):
+        raise AnalysisError(f"{rid}: positive control failed — the end-point/length test is no longer recognised")
+    funcs = ctx.repo.all_functions([IR])
+
+    def ordered_unique(f, a: ast.AST, depth=0):
+        """(True, None) when the list expression is sorted and duplicate-free by construction at every origin; else
+        (False, text of an origin that is not)."""
+        if isinstance(a, ast.Call) and call_name(a) in ORDERED_UNIQUE_CALLS:
+            return True, None
+        if isinstance(a, ast.Call) and call_name(a) in ("list", "tuple", "asarray", "array", "sorted") and a.args:
+            if call_name(a) == "sorted" and isinstance(a.args[0], ast.Call) and call_name(a.args[0]) in ("set", "frozenset"):
+                return True, None
+            return ordered_unique(f, a.args[0], depth)
+        if not isinstance(a, ast.Name):
+            return False, f"`{ast.unparse(a)}` in {f.qualname}"
+        defs = ctx.rd(f).defs_reaching(a)
+        if not defs:
+            return False, f"`{a.id}` in {f.qualname}"
+        for d in defs:
+            if isinstance(d, ast.arguments):
+                sites = [(c, call) for c, call in ctx.cg.call_sites_of(f) if c is not f]
+                if not sites or depth >= 3:
+                    return False, f"parameter `{a.id}` of {f.qualname}"
+                for c, call in sites:
+                    x = _bind_args(f, call).get(a.id)
+                    if x is None:
+                        return False, f"parameter `{a.id}` of {f.qualname} (not bound at `{ast.unparse(call)[:60]}`)"
+                    ok_, why = ordered_unique(c, x, depth + 1)
+                    if not ok_:
+                        return False, why
+                continue
+            v = assigned_value(d, a.id)
+            if v is None:
+                return False, f"`{a.id}` (bound by `{norm(d)[:70]}`) in {f.qualname}"
+            ok_, why = ordered_unique(f, v, depth)
+            if not ok_:
+                return False, why
+        return True, None
+    n_tests = n_span = 0
+    for f in funcs:
+        rd = ctx.rd(f)
+        for cmp in [c for c in walk_shallow(f.node) if isinstance(c, ast.Compare)]:
+            n_tests += 1
+            X = _span_test(rd, cmp)
+            if X is None:
+                continue
+            n_span += 1
+            st = stmt_of(ctx.cfg(f), cmp)
+            # the whole boolean expression the test is part of, and the tests that dominate it
+            top = cmp
+            while isinstance(parent(top), (ast.BoolOp, ast.UnaryOp)):
+                top = parent(top)
+            ctxs = [top] + [d.test for d in ctx.cfg(f).dominators(st) if isinstance(d, (ast.If, ast.While)) and d is not st]
+            name_node = next(n for n in ast.walk(cmp) if isinstance(n, ast.Name) and n.id == X)
+            label = f"run test `{_plain(ast.unparse(cmp))}`"
+            facts = {"test": _plain(ast.unparse(cmp)), "list": X}
+            if any(_elementwise_run_test(e, X) for e in ctxs if e is not cmp):
+                ctx.ok(rid, f, st, f"the end-point test of `{X}` is combined with a test of every element", facts, label=label)
+                continue
+            ok_, why = ordered_unique(f, name_node)
+            if ok_:
+                ctx.ok(rid, f, st, f"`{X}` is sorted and duplicate-free by construction at every origin (np.unique / range): the end "
+                                   f"points and the length determine it", facts, label=label)
+            else:
+                facts["origin"] = why
+                ctx.violation(rid, f, st,
+                              f"`{_plain(ast.unparse(cmp))}` takes `{X}` for a run of consecutive positions because its end points are "
+                              f"len({X}) - 1 apart; that also holds for a permuted list and for one with a repeated and a missing "
+                              f"position, and `{X}` is not sorted and duplicate-free by construction (origin: {why}): the positions are "
+                              f"then addressed as a slice / the whole variable and the edge reads or writes other elements than the "
+                              f"connections name", facts, label=label)
+    ctx.ok(rid, None, None, f"controls: the end-point/length test is matched, the element-wise test is not; {n_tests} comparisons in "
+                            f"{IR} scanned, {n_span} end-point run tests", construct="rules/c01.py::_R14_CONTROL", loc="rules/c01.py",
+           nontrivial=False)
+    ctx.require(n_tests >= 100, f"{rid}: only {n_tests} comparisons scanned in {IR}")
+
+
+RULES.append(("C01-R14", r14_index_run_is_decided_element_by_element, 1))
